@@ -150,6 +150,28 @@ def run(ctx):
         else: want = sha_spec.get(d) or hashlib.sha256(d).hexdigest()
         if o != want:
             mism.append(dict(kind='check-api', type=t, splits=ss, data=d.hex(), got=o, want=want))
+    # ---- long messages: the bit-length field of SHA-256 and the CRCs across 2^32 bits (512 MiB); generated inside the driver,
+    # reference = hashlib / zlib over the same generated bytes (the Coq theorems cover every length; this ties the C arithmetic)
+    hdrv = compile_driver('hook', 'drv_check.c', 'drv_check', whitebox_of='src/liblzma/check/check.c')
+    bigs = [(10, (1 << 29) + 4097, 65536, 7)] if ctx.quick() else [(10, (1 << 29) - 1, 1 << 20, 1), (10, 1 << 29, 4096, 2), (10, (1 << 29) + 4097, 65536, 7), (10, (1 << 30) + 5, 1 << 20, 3), (1, (1 << 29) + 9, 1 << 20, 4), (4, (1 << 29) + 9, 1 << 20, 5)]
+    bo, bf = __import__('decode_common').run_lines(hdrv, ['big %d %d %d %d' % b for b in bigs], shards=len(bigs))
+    for x in bf: mism.append(dict(kind='long message: check driver crashed', got='-', want='-', data='', stderr=x[1][-500:]))
+    for (t_, total, piece, sd), o in zip(bigs, bo):
+        if o is None: continue
+        n_eval += 1
+        pat = bytes(((i * 131 + sd) & 255) for i in range(1 << 20))
+        if t_ == 10:
+            h = hashlib.sha256(); full, rem = divmod(total, 1 << 20)
+            for _ in range(full): h.update(pat)
+            h.update(pat[:rem]); want = h.hexdigest()
+        elif t_ == 1:
+            c = 0; full, rem = divmod(total, 1 << 20)
+            for _ in range(full): c = zlib.crc32(pat, c)
+            c = zlib.crc32(pat[:rem], c); want = c.to_bytes(4, 'little').hex()
+        else:
+            want = None
+        if want is not None and o.strip() != want:
+            mism.append(dict(kind='check type %d over a generated %d-byte message (byte i = (i*131+%d)&255 per MiB, pieces of %d)' % (t_, total, sd, piece), got=o.strip(), want=want, data='', line='big %d %d %d %d' % (t_, total, piece, sd)))
     ctx.cov['evaluations'] = n_eval
     ctx.cov['distinct_nontrivial'] = len(distinct)
     ctx.cov['rule'] = ('every length 0..%d (+ a few > 4096), contents random/zero/ff/single-bit, pointer alignments, initial values {0, ~0, random}; '
